@@ -86,6 +86,9 @@ where
     for ax in 0..a.ndim() {
         let r = a.fold_axis_skipnan(Axis(ax), (0.0f64, 0.0f64), |acc, x| (acc.0 + 1.0, acc.1.max(knn(x))));
         p(&format!("fold_axis_skipnan_{}", ax), Val::F(r.iter().flat_map(|t| vec![t.0, t.1]).collect()));
+        // an order-sensitive fold: the elements of a lane are combined in logical order along the axis
+        let r = a.fold_axis_skipnan(Axis(ax), 1.0f64, |acc, x| acc * 3.0 + knn(x));
+        p(&format!("fold_axis_skipnan_ordered_{}", ax), Val::F(r.iter().cloned().collect()));
     }
 }
 
@@ -407,6 +410,21 @@ fn sig_for(c: &Case, canonical: bool) -> Sig {
         p("a[argmin]", res_f(QuantileExt::argmin(&a).map(|i| a[i])));
         p("a[argmax]", res_f(QuantileExt::argmax(&a).map(|i| a[i])));
     });
+    // extreme mixed-sign values: in logical order the partial sums stay finite (+M, -M alternate along the last
+    // axis); any other summation order overflows. weighted_sum / weighted_mean add in logical order.
+    if d >= 2 {
+        let last = c.shape[d - 1];
+        let n: usize = c.shape.iter().product();
+        let big: Vec<f64> = (0..n).map(|i| if (i % last) % 2 == 0 { 1.0e308 } else { -1.0e308 }).collect();
+        let ones: Vec<f64> = vec![1.0; n];
+        with_repr2!(kind, (&c.shape, &big, &l, 0.0), (&c.shape, &ones, &l, 0.0), |a, w| {
+            {
+                dims2!(a, w, {
+                    out.push(("weighted_sum_extreme".into(), res_f(a.weighted_sum(&w))));
+                })
+            }
+        });
+    }
     // entropy family needs non-negative data: separate operands
     {
         let pa: Vec<f64> = cn.f.iter().map(|x| x.abs() / 8.0).collect();
